@@ -46,7 +46,7 @@ func WithGatewayIP(ip net.IP) Modifier {
 // WithOptionCopied copies the value of option opt from request.
 func WithOptionCopied(request *DHCPv4, opt OptionCode) Modifier {
 	return func(d *DHCPv4) {
-		if val := request.Options.Get(opt); val != nil {
+		if val := request.Options.Get(opt); len(val) > 0 {
 			d.UpdateOption(OptGeneric(opt, val))
 		}
 	}
